@@ -322,6 +322,83 @@ static void op_sera(const char* tree, int mode, long k) {
   cbor_decref(&it);
 }
 
+/* every predicate and getter that hands out no new reference, recursively; returns a checksum so nothing is optimised away */
+static uint64_t ro_walk(const cbor_item_t* it, int depth) {
+  uint64_t h = 1469598103934665603ULL;
+#define MIX(v) (h = (h ^ (uint64_t)(v)) * 1099511628211ULL)
+  if (!it || depth > 3000) return h;
+  MIX(cbor_typeof(it)); MIX(cbor_refcount(it));
+  MIX(cbor_isa_uint(it)); MIX(cbor_isa_negint(it)); MIX(cbor_isa_bytestring(it)); MIX(cbor_isa_string(it)); MIX(cbor_isa_array(it));
+  MIX(cbor_isa_map(it)); MIX(cbor_isa_tag(it)); MIX(cbor_isa_float_ctrl(it)); MIX(cbor_is_int(it)); MIX(cbor_is_float(it));
+  MIX(cbor_is_bool(it)); MIX(cbor_is_null(it)); MIX(cbor_is_undef(it));
+  switch (cbor_typeof(it)) {
+    case CBOR_TYPE_UINT: case CBOR_TYPE_NEGINT:
+      MIX(cbor_int_get_width(it)); MIX(cbor_get_int(it));
+      switch (cbor_int_get_width(it)) {
+        case CBOR_INT_8: MIX(cbor_get_uint8(it)); break; case CBOR_INT_16: MIX(cbor_get_uint16(it)); break;
+        case CBOR_INT_32: MIX(cbor_get_uint32(it)); break; case CBOR_INT_64: MIX(cbor_get_uint64(it)); break;
+      }
+      break;
+    case CBOR_TYPE_BYTESTRING:
+      MIX(cbor_bytestring_is_definite(it)); MIX(cbor_bytestring_is_indefinite(it));
+      if (cbor_bytestring_is_definite(it)) { MIX(cbor_bytestring_length(it)); const unsigned char* d = cbor_bytestring_handle(it); for (size_t i = 0; i < cbor_bytestring_length(it); i++) MIX(d[i]); }
+      else { MIX(cbor_bytestring_chunk_count(it)); cbor_item_t** c = cbor_bytestring_chunks_handle(it); for (size_t i = 0; i < cbor_bytestring_chunk_count(it); i++) MIX(ro_walk(c[i], depth + 1)); }
+      break;
+    case CBOR_TYPE_STRING:
+      MIX(cbor_string_is_definite(it)); MIX(cbor_string_is_indefinite(it));
+      if (cbor_string_is_definite(it)) { MIX(cbor_string_length(it)); MIX(cbor_string_codepoint_count(it)); const unsigned char* d = cbor_string_handle(it); for (size_t i = 0; i < cbor_string_length(it); i++) MIX(d[i]); }
+      else { MIX(cbor_string_chunk_count(it)); cbor_item_t** c = cbor_string_chunks_handle(it); for (size_t i = 0; i < cbor_string_chunk_count(it); i++) MIX(ro_walk(c[i], depth + 1)); }
+      break;
+    case CBOR_TYPE_ARRAY:
+      MIX(cbor_array_size(it)); MIX(cbor_array_allocated(it)); MIX(cbor_array_is_definite(it)); MIX(cbor_array_is_indefinite(it));
+      for (size_t i = 0; i < cbor_array_size(it); i++) MIX(ro_walk(cbor_array_handle(it)[i], depth + 1));
+      break;
+    case CBOR_TYPE_MAP:
+      MIX(cbor_map_size(it)); MIX(cbor_map_allocated(it)); MIX(cbor_map_is_definite(it)); MIX(cbor_map_is_indefinite(it));
+      for (size_t i = 0; i < cbor_map_size(it); i++) { MIX(ro_walk(cbor_map_handle(it)[i].key, depth + 1)); MIX(ro_walk(cbor_map_handle(it)[i].value, depth + 1)); }
+      break;
+    case CBOR_TYPE_TAG:
+      MIX(cbor_tag_value(it)); MIX(ro_walk(it->metadata.tag_metadata.tagged_item, depth + 1));
+      break;
+    case CBOR_TYPE_FLOAT_CTRL:
+      MIX(cbor_float_get_width(it)); MIX(cbor_float_ctrl_is_ctrl(it));
+      if (cbor_float_ctrl_is_ctrl(it)) { MIX(cbor_ctrl_value(it)); if (cbor_is_bool(it)) MIX(cbor_get_bool(it)); }
+      else {
+        double d = cbor_float_get_float(it); uint64_t u; memcpy(&u, &d, 8); if (d == d) MIX(u);
+        if (cbor_float_get_width(it) == CBOR_FLOAT_16) { float f = cbor_float_get_float2(it); if (f == f) MIX(fbits(f)); }
+        if (cbor_float_get_width(it) == CBOR_FLOAT_32) { float f = cbor_float_get_float4(it); if (f == f) MIX(fbits(f)); }
+        if (cbor_float_get_width(it) == CBOR_FLOAT_64) { double g = cbor_float_get_float8(it); if (g == g) MIX(dbits(g)); }
+      }
+      break;
+  }
+  return h;
+#undef MIX
+}
+
+/* RO <tree>: build the tree, write-protect it (HALLOC=arena; otherwise only the before/after comparison applies), run every read-only
+   operation on it, unprotect, compare  ->  <size> <hex> intact=<0|1> */
+static void op_ro(const char* tree) {
+  cbor_item_t* it = parse_tree(tree);
+  if (!it) { printf("bad-tree\n"); return; }
+  struct sb s = {0}; print_item(&s, it, NULL, 0);
+  h_arena_protect(1);
+  size_t sz = cbor_serialized_size(it);
+  unsigned char* b = malloc(sz ? sz : 1);
+  size_t w = cbor_serialize(it, b, sz);
+  volatile uint64_t sink = ro_walk(it, 0); (void)sink;
+  unsigned char* ab = NULL; size_t abs_ = 0;
+  size_t w2 = cbor_serialize_alloc(it, &ab, &abs_);
+  int same = (w2 == w) && ab && memcmp(ab, b, w) == 0;
+  { extern _cbor_free_t _cbor_free; if (ab) _cbor_free(ab); }
+  size_t sz2 = cbor_serialized_size(it);
+  h_arena_protect(0);
+  struct sb s2 = {0}; print_item(&s2, it, NULL, 0);
+  printf("%zu ", sz); print_hex(b, w);
+  printf(" intact=%d\n", strcmp(s.p, s2.p) == 0 && same && sz2 == sz);
+  free(b); free(s.p); free(s2.p);
+  cbor_decref(&it);
+}
+
 /* ROUND <tree>: serialize, reload, compare tree text, reserialize  ->  <hex> reload=<tree|ERR..> read=<n> again=<=|hex> */
 static void op_round(const char* tree) {
   cbor_item_t* it = parse_tree(tree);
@@ -355,5 +432,6 @@ int tree_op(int argc, char** w) {
   if (!strcmp(w[0], "SER") && argc == 3) { op_ser(w[1], strtoull(w[2], 0, 10)); return 1; }
   if (!strcmp(w[0], "SERA") && argc >= 2) { op_sera(w[1], argc > 2 ? atoi(w[2]) : 0, argc > 3 ? atol(w[3]) : 0); return 1; }
   if (!strcmp(w[0], "ROUND") && argc == 2) { op_round(w[1]); return 1; }
+  if (!strcmp(w[0], "RO") && argc == 2) { op_ro(w[1]); return 1; }
   return hist_op(argc, w);
 }
